@@ -208,8 +208,15 @@ matrix *Matrix_NewFromPyBuffer(PyObject *obj, int id, int *ndim)
   }
 
   if (view->ndim != 1 && view->ndim != 2) {
+    PyBuffer_Release(view);
     free(view);
     PY_ERR_TYPE("imported array must have 1 or 2 dimensions");
+  }
+
+  if (view->shape[0] > INT_MAX || (view->ndim == 2 && view->shape[1] > INT_MAX)) {
+    PyBuffer_Release(view);
+    free(view);
+    PY_ERR(PyExc_OverflowError, "number of elements exceeds INT_MAX");
   }
   
   /* check buffer format */
